@@ -38,7 +38,7 @@ KINDS = {
     "string-nodes": r"not \(isinstance\(L0_0, str\)\).* @ (base_graph|G)\.nodes$",
     "acyclic": r"not \(nx\.is_directed_acyclic_graph\(self\.base_graph\)\)",
     "source-sink-exist": r"not \(self\.(source|sink)_edges\)",
-    "weights-present-nonneg": r"LT0\[L0_2\[flow_attr\]\].* @ self\.edges|not \(flow_attr in L0_2\).* @ self\.edges",
+    "weights-present-nonneg": r"LT0\[(L0_2|self\[L0_0\]\[L0_1\])\[flow_attr\]\].* @ self\.edges|not \(flow_attr in (L0_2|self\[L0_0\]\[L0_1\])\).* @ self\.edges",
     "conservation": r"satisfies_flow_conservation|check_flow_conservation",
     "constraint-shape-membership": r"not \(self\.G\.has_edge\(L1_0\[0\], L1_0\[1\]\)\).* @ L0_0",
     "coverage-range": r"LE0\[(self\.)?sub(path|set)_constraints_coverage\]",
